@@ -218,8 +218,9 @@ def joiner_rules(facts, rep, D):
         rep.fail("R06.3", TRAIT, "parent_internal present", "missing")
     else:
         ok = True
+        slices = 0
         cases = inter.ret_cases(pi)
-        for ct, _, bb in cases:
+        for ct, cgs, bb in cases:
             v = norm(inter.inline_ret(ct, 2, pred=lambda bd: bd.kind == "Closure"))
             txt = fmt(v)
             # value = unwrap_or_default(map(rfind(path,'/'), |idx| path[..idx]))
@@ -239,7 +240,25 @@ def joiner_rules(facts, rep, D):
                             sl = sl[2][0]
                         if not (sl[0] == "call" and sl[1] == "Index::index" and sl[2][1][0] == "agg" and sl[2][1][1].endswith("RangeTo")):
                             good = False
+            if not good:
+                # the same function written as a match on rfind: `Some(idx) => path[..idx].to_string(), None => String::new()`
+                sl = peel(v)
+                while sl[0] == "call" and sl[1] in ("ToString::to_string", "ToOwned::to_owned", "String::from") and sl[2]:
+                    sl = peel(sl[2][0])
+                is_rfind = lambda r_: r_[0] == "call" and r_[1] == "str::rfind" and len(r_[2]) == 2 and r_[2][0][0] == "arg" and \
+                    r_[2][1] == ("char", "/")
+                if sl[0] == "call" and sl[1] == "Index::index" and len(sl[2]) == 2 and sl[2][0][0] == "arg" and sl[2][1][0] == "agg" and \
+                        sl[2][1][1].endswith("RangeTo") and not sl[2][1][1].endswith("RangeToInclusive") and len(sl[2][1][3]) == 1 and \
+                        sl[2][1][3][0][1][0] == "okval" and is_rfind(sl[2][1][3][0][1][1]) and \
+                        sl[2][1][3][0][1][1][2][0] == sl[2][0]:
+                    good = True
+                    slices += 1
+                elif sl in (("call", "String::new", ()), ("str", "")) or (sl[0] == "call" and sl[1] in ("String::new", "Default::default") and not sl[2]):
+                    gs_ = [(g[0], norm(g[1])) + tuple(g[2:]) for g in list(cgs or ()) + list(D.guards(pi, bb))]
+                    good = any(g[0] == "variant" and g[3] == "None" and is_rfind(peel(g[1])) for g in gs_)
             ok = ok and good
+        if slices == 0 and any(norm(c_[0])[0] != "call" or not norm(c_[0])[1].startswith("Option::unwrap_or") for c_ in cases):
+            ok = False
         n += 1
         rep.ob("R06.3", pi.id, "parent_internal = path[..rfind('/')] or \"\"", ok and bool(cases), "" if ok else
                "parent_internal is not the prefix up to the last '/' (it could lengthen or change the path)", pi.span)
@@ -369,6 +388,16 @@ def single_impl_rules(facts, rep, D):
     return n
 
 
+def _strings_equal(g):
+    """the branch outcome `a.path == b.path` holds — written with `==` taken or with `!=` not taken"""
+    if g[0] != "bool":
+        return False
+    t, val = g[1], g[2]
+    while t[0] == "un" and t[1] == "Not":
+        t, val = t[2], (not val)
+    return t[0] == "call" and ((t[1] == "PartialEq::eq" and val is True) or (t[1] == "PartialEq::ne" and val is False))
+
+
 def eq_rules(facts, rep, D):
     n = 0
     for ty in ("path::VfsPath", "async_vfs::path::AsyncVfsPath"):
@@ -387,7 +416,7 @@ def eq_rules(facts, rep, D):
             t = blk.term
             a = [norm(tr.operand(x)) for x in t.args]
             sh = short(t.callee() or "")
-            if sh in ("PartialEq::eq",) and len(a) == 2 and all(x[0] == "field" and x[2] == "path" for x in a) and {a[0][1][1], a[1][1][1]} == {0, 1}:
+            if sh in ("PartialEq::eq", "PartialEq::ne") and len(a) == 2 and all(x[0] == "field" and x[2] == "path" for x in a) and {a[0][1][1], a[1][1][1]} == {0, 1}:
                 has_path = True
             if sh == "Arc::ptr_eq" and len(a) == 2 and all(x[0] == "field" and x[2] == "fs" for x in a) and {a[0][1][1], a[1][1][1]} == {0, 1}:
                 has_ptr = True
@@ -399,13 +428,13 @@ def eq_rules(facts, rep, D):
         for kind, bb, idx in tr.defs.get(0, []):
             gs = D.guards(b, bb)
             if kind == "call" and short(b.blocks[bb].term.callee() or "") == "Arc::ptr_eq":
-                conj = any(g[0] == "bool" and g[2] is True and g[1][0] == "call" and g[1][1] == "PartialEq::eq" for g in gs)
+                conj = any(_strings_equal(g) for g in gs)
             if kind == "call" and short(b.blocks[bb].term.callee() or "") == "PartialEq::eq":
                 conj = any(g[0] == "bool" and g[2] is True and g[1][0] == "call" and g[1][1] == "Arc::ptr_eq" for g in gs)
             if kind == "assign":
                 v = norm(tr.rvalue(b.blocks[bb].stmts[idx].rv, frozenset()))
                 if v == ("int", 1):
-                    conj = conj or (any(g[0] == "bool" and g[2] is True and g[1][0] == "call" and g[1][1] == "PartialEq::eq" for g in gs) and
+                    conj = conj or (any(_strings_equal(g) for g in gs) and
                                     any(g[0] == "bool" and g[2] is True and g[1][0] == "call" and g[1][1] == "Arc::ptr_eq" for g in gs))
         n += 3
         rep.ob("R06.6", b.id, "eq compares the two path strings", has_path, "", b.span)
